@@ -253,6 +253,7 @@ func (queue *Queue) PopQos(qosList []*qos.AmqpQos) *amqp.Message {
 
 	queue.SafeQueue.Lock()
 	var message *amqp.Message
+	newHead := false
 	if message = queue.SafeQueue.HeadItem(); message != nil {
 		allowed := true
 		charged := make([]*qos.AmqpQos, 0, len(qosList))
@@ -273,11 +274,17 @@ func (queue *Queue) PopQos(qosList []*qos.AmqpQos) *amqp.Message {
 		if allowed {
 			queue.SafeQueue.DirtyPop()
 			atomic.AddInt64(&queue.queueLength, -1)
+			newHead = queue.SafeQueue.DirtyLength() > 0
 		} else {
 			message = nil
 		}
 	}
 	queue.SafeQueue.Unlock()
+
+	if newHead {
+		// a consumer that a size window kept from the old head may have room for the new one
+		queue.callConsumers()
+	}
 
 	return message
 }
